@@ -148,7 +148,7 @@ class _Lock:
 def regenerate():
     """Regenerate Hdc/Gen/* from /repo's working tree (translators). Returns (ok, log)."""
     ok, log = True, ""
-    for name in ("translate_dekad.py", "summarise_effects.py", "translate_ws2d.py", "py2lean.py"):
+    for name in ("translate_dekad.py", "summarise_effects.py", "translate_ws2d.py", "py2lean.py", "py2lean_num.py"):
         tr = ROOT / "harness" / name
         if tr.exists():
             r = subprocess.run([sys.executable, str(tr)], capture_output=True, text=True)
